@@ -11,7 +11,9 @@ def seq_scenario(seq, mode="folder", nested=False, alter=None, restore=None, see
     """seq: list of format lists, one per generation.  alter = index of the generation before which b.txt is altered,
     restore = index before which it is restored."""
     # s_proxy is a sibling whose name starts with the name of the (possibly nested) history folder s
-    tree = {"a.txt": "content A", "s/b.txt": "content B", "s/c.txt": "", "s_proxy/d.txt": "content D"}
+    # (files of 130, 200 and 241 bytes: the short-input code paths of the xxh family end at 128 and 240 bytes)
+    tree = {"a.txt": "content A", "s/b.txt": "content B", "s/c.txt": "", "s_proxy/d.txt": "content D",
+            "m130.bin": "m" * 130, "s/m200.bin": "n" * 200, "s_proxy/m241.bin": "o" * 241}
     ops = []
     if nested:
         ops.append({"op": "create", "at": "s", "h": ["md5"], "now": "2026-03-01 11:59:59"})
@@ -79,9 +81,43 @@ def parse_manifests(asc):
     return out
 
 
+def renamed_scenarios():
+    """the first recorded digest stays the reference across a rename recorded with -dr: the renamed file, altered later,
+    fails; put back, it verifies again - in the root and in a nested history"""
+    out = []
+    for pre in ("", "s/", "", "s/"):
+        for fm in (["md5"], ["sha1", "md5"]):
+            ops = [{"op": "create", "at": "s", "h": ["md5"], "now": "2026-03-01 12:00:00"}, {"op": "create", "at": "", "h": ["md5"], "now": "2026-03-01 12:00:01"},
+                   {"op": "mv", "src": pre + "a.txt", "dst": pre + "b.txt"}, {"op": "create", "at": "", "h": fm, "now": "2026-03-01 12:00:02", "dr": True},
+                   {"op": "create", "at": "", "h": fm, "now": "2026-03-01 12:00:03"},
+                   {"op": "write", "path": pre + "b.txt", "data": "ALTERED after the rename"}, {"op": "create", "at": "", "h": fm, "now": "2026-03-01 12:00:04"}, {"op": "verify", "at": ""},
+                   {"op": "write", "path": pre + "b.txt", "data": "content A"}, {"op": "create", "at": "", "h": fm, "now": "2026-03-01 12:00:05"}]
+            exp = [0, 0, None, 0, 0, None, 11, 11, None, 0]
+            if len(out) >= 4:
+                # the alteration follows the -dr generation directly
+                del ops[4], exp[4]
+            out.append({"root": "root", "profile": "c04-renamed", "tree": {"a.txt": "content A", "s/a.txt": "content A", "k.txt": "k"}, "ops": ops,
+                        "c04r": {"path": pre + "b.txt", "expect": exp}})
+    return out
+
+
+def monitor_renamed(sc, res):
+    fails = []
+    exp = sc["c04r"]["expect"]
+    for i, st in enumerate(res["steps"]):
+        io_ = st["impl"]
+        if io_ is None or exp[i] is None:
+            continue
+        if io_["exc"] is not None or io_["exit"] != exp[i]:
+            fails.append({"what": f"step {i} {st['op']['op']} {st['op'].get('h', '')}: exit {io_['exit']} {io_['exc'] or ''}, expected {exp[i]} ({sc['c04r']['path']} was renamed with -dr, later altered, later put back: the first recorded digest stays the reference)", "replay": sc})
+    return fails
+
+
 def monitor(sc, res):
     """the property's statement evaluated on the action attributes read by an independent reader"""
     fails = []
+    if sc.get("c04r"):
+        return monitor_renamed(sc, res)
     if any(o.get("dr") for o in sc["ops"]):
         return fails
     last = None
@@ -165,6 +201,7 @@ def run(ctx):
     # the former defect D1 and its neighbours run first
     scs.append(seq_scenario([["xxh64", "md5"], ["xxh64", "sha1"]]))
     scs.append(seq_scenario([["xxh64", "md5"], ["xxh64", "sha1"]], mode="sf"))
+    scs += renamed_scenarios()
     for md in ("folder", "sf"):
         for nst in (False, True):
             scs.append(seq_scenario([["md5"], ["md5", "sha1"], ["xxh64"]], mode=md, nested=nst, casetwin=1))
